@@ -61,6 +61,8 @@ def obj_binary(name):
         return lambda x: onemax(x) * 1e300
     if name == "asym":   # asymmetric range: raw-value uses would show under the min/max duality
         return lambda x: onemax(x) ** 2 - 3.0 * onemax(x) + 7.0
+    if name == "offset":  # improvements that are tiny RELATIVE to the values (1 in 1e12)
+        return lambda x: onemax(x) + 1e12
     raise KeyError(name)
 
 
@@ -79,6 +81,8 @@ def obj_float(name):
         return lambda x: sphere(x) * 1e300
     if name == "asym":
         return lambda x: np.sum(np.asarray(x, dtype=np.float64), axis=1) * 3.0 + 11.0
+    if name == "offset":
+        return lambda x: np.round(sphere(x) * 8.0) / 8.0 + 1e12
     raise KeyError(name)
 
 
@@ -97,6 +101,8 @@ def obj_tree(name):
         return lambda trees: size(trees) * 1e300
     if name == "asym":
         return lambda trees: size(trees) ** 2 - 5.0 * size(trees)
+    if name == "offset":
+        return lambda trees: size(trees) + 1e12
     raise KeyError(name)
 
 
@@ -104,6 +110,14 @@ def g2p_half(x):
     """many-to-one genotype_to_phenotype on binary strings / float vectors: keep the first half"""
     a = np.asarray(x, dtype=np.float64)
     return a[:, : max(1, a.shape[1] // 2)].copy()
+
+
+def g2p_same(x):
+    """a non-identity genotype_to_phenotype that keeps the row shape (binary: complement; float: affine)"""
+    a = np.asarray(x, dtype=np.float64)
+    if np.isin(a, (0.0, 1.0)).all():
+        return 1.0 - a
+    return a * 0.5 - 0.25
 
 
 _UNISET = None
@@ -144,6 +158,12 @@ class Recorder:
                     self.inconsistent.append(("obj", p))
                 self.obj_table[p] = v
             self.calls.append((pk, [float(v) for v in vals]))
+            if self.cfg.get("buffered"):
+                # an objective that reuses its output buffer between calls (legitimate user behaviour)
+                if getattr(self, "_buf", None) is None or len(self._buf) != len(vals):
+                    self._buf = np.empty(len(vals), dtype=np.float64)
+                self._buf[:] = vals
+                vals = self._buf
             if self.g2p_user is None:
                 gk = [self.gids.id(p) for p in ph]
                 self.g_batches.append(gk)
@@ -214,7 +234,7 @@ def build(cls_name, cfg, rec: Recorder):
         if cls_name in GP:
             g2p = lambda trees: np.array([t.copy() for t in trees], dtype=object)  # noqa: E731
         else:
-            g2p = g2p_half
+            g2p = g2p_same if cfg.get("g2p") == "same" else g2p_half
     rec.g2p_user = g2p
     kw = dict(fitness_function=rec.wrap_fitness(f), iters=iters, pop_size=pop,
               elitism=cfg.get("elitism", True), minimization=cfg.get("minimization", False),
@@ -231,7 +251,8 @@ def build(cls_name, cfg, rec: Recorder):
     if cls_name in GP:
         kw.update(uniset=uniset(), max_level=cfg.get("max_level", 5), init_level=4)
     for k in ("selection", "crossover", "mutation", "selections", "crossovers", "mutations", "F", "CR", "K",
-              "tour_size", "parents_num", "mutation_rate"):
+              "tour_size", "parents_num", "mutation_rate", "selection_threshold_proba", "crossover_threshold_proba",
+              "mutation_threshold_proba", "F_min", "F_max", "t_F", "t_CR"):
         if k in cfg:
             kw[k] = cfg[k]
     if cfg.get("init_population") is not None:
@@ -336,10 +357,15 @@ def configs(tier: str, seed: int, classes=None, extra_stop=True):
     classes = classes or ALL
     for cn in classes:
         base = {"pop_size": 8 if cn not in GP else 7, "iters": 7 if cn not in GP else 5}
-        objs = ["onemax" if cn not in FLOAT else "sphere", "plateau", "ties", "negative", "huge", "asym"]
+        objs = ["onemax" if cn not in FLOAT else "sphere", "plateau", "ties", "negative", "huge", "asym", "offset"]
         combos = []
         for i, o in enumerate(objs):
             combos.append(dict(objective=o, elitism=(i % 2 == 0), minimization=(i % 3 == 1), g2p=(i % 4 == 3), init=(i % 3 == 2)))
+        # shape-preserving non-identity g2p; an objective that reuses its output buffer (max and min)
+        combos.append(dict(objective=objs[0], elitism=True, minimization=False, g2p="same", init=False))
+        combos.append(dict(objective="asym", elitism=False, minimization=True, g2p="same", init=True))
+        combos.append(dict(objective="plateau", elitism=True, minimization=False, g2p=False, init=False, buffered=True))
+        combos.append(dict(objective=objs[0], elitism=False, minimization=True, g2p=False, init=False, buffered=True))
         if tier == "thorough":
             for o in objs:
                 for el in (True, False):
@@ -348,7 +374,7 @@ def configs(tier: str, seed: int, classes=None, extra_stop=True):
         for j, c in enumerate(combos):
             cfg = dict(base)
             cfg.update(objective=c["objective"], elitism=c["elitism"], minimization=c["minimization"], g2p=c["g2p"],
-                       seed=seed * 100 + j, keep_history=True)
+                       seed=seed * 100 + j, keep_history=True, buffered=bool(c.get("buffered")))
             if c["init"]:
                 cfg["init_population"] = "make"
             out.append((cn, cfg))
@@ -376,6 +402,9 @@ def configs(tier: str, seed: int, classes=None, extra_stop=True):
     return out
 
 
+FAILED_RUNS = []
+
+
 def run_all(tier: str, seed: int, classes=None, extra_stop=True):
     """record every configured run and replay it through the model; returns [(rec, diffs)]"""
     recs = []
@@ -384,7 +413,10 @@ def run_all(tier: str, seed: int, classes=None, extra_stop=True):
         if cfg.get("init_population") == "make":
             cfg["init_population"] = make_init(cn, cfg, cfg["seed"])
             cfg["_init_copy"] = copy.deepcopy(cfg["init_population"])
-        recs.append(record(cn, cfg))
+        try:
+            recs.append(record(cn, cfg))
+        except Exception as e:   # reported by the caller as a failing input ("the run raises")
+            FAILED_RUNS.append((cn, {k: v for k, v in cfg.items() if k not in ("init_population", "_init_copy")}, repr(e)[:300]))
     lines = [json.dumps(driver_op(r)) for r in recs]
     outs = C.lean_driver(lines)
     res = []
